@@ -235,6 +235,21 @@ pub fn run(args: &Args) -> Report {
                 }
             }
         }
+        // known finding (witness): a float with an integral value inside UNINTERPRETED IF_DATA is written without decimal
+        // point or exponent (`5.0` -> `5`, `1e3` -> `1000`) and read back as an integer: the reloaded model differs
+        // (GenericIfData::Long instead of ::Double), the text is stable. Only this scenario is classified; the same
+        // scenario failing in another way (text not a fixpoint, load error) keeps its own kind.
+        for (k, nums) in ["5.0 1e3 2.5", "-3.0", "/begin B 100.0 /end B 0.5"].iter().enumerate() {
+            let text = format!("ASAP2_VERSION 1 71\n/begin PROJECT p \"\"\n/begin MODULE m \"\"\n/begin IF_DATA VENDOR {nums} /end IF_DATA\n/end MODULE\n/end PROJECT\n");
+            if let Loaded::Ok(file, _) = load(&text, false) {
+                rep.case(&(k, "integral-float"), true);
+                rep.bump("finding:ifdata-integral-float");
+                if let Err((kind, detail)) = cycle_from_model(file, false, 3) {
+                    let kind = if kind == "model" { "ifdata-integral-float".to_string() } else { kind };
+                    rep.fail(&kind, format!("0 {}", hex(text.as_bytes())), format!("float with an integral value in uninterpreted IF_DATA: {detail}"));
+                }
+            }
+        }
         let _ = std::fs::remove_dir_all(&tmp);
     }
     for (i, (text, strict, family)) in texts.iter().enumerate() {
